@@ -152,6 +152,27 @@ def withdrawCoins (c : Cfg) (dest : Dest) : Res :=
       else if dest = .blocked then .error .blocked
       else .ok ()
 
+/-- `accountControlsAllSupply` (marker.go:868). As found (`viaBank = false`): the caller's
+balance of the marker's denom equals the supply RECORDED in the marker (`m.GetSupply()`),
+whatever coins exist — a record of 0 (a marker created with amount 0, and for ever so when its
+supply floats, because `IncreaseSupply` only updates the record of fixed-supply markers) makes
+every account with a zero balance "control all supply". Repaired (`viaBank = true`): the
+caller holds every coin in existence (`bankKeeper.GetSupply`) and there is at least one.
+This is what `Cfg.ctlSupply` holds. -/
+def accountControlsAllSupplyWith (viaBank : Bool) (callerBal supplyRecord circulating : Int) : Bool :=
+  if viaBank then decide (0 < circulating) && circulating == callerBal
+  else supplyRecord == callerBal
+
+/- ======================================================================================
+   SECOND SWITCH.  `false` = the code as it is (compares with the recorded supply).
+   After the repair of `accountControlsAllSupply` (compare with `bankKeeper.GetSupply`,
+   require it positive) set this to `true`; the theorems of `PvProofs.C12` cover both values.
+   ====================================================================================== -/
+def supplyControlViaBank : Bool := false
+
+def accountControlsAllSupply (callerBal supplyRecord circulating : Int) : Bool :=
+  accountControlsAllSupplyWith supplyControlViaBank callerBal supplyRecord circulating
+
 /-- the shared guard of `AddAccess` (marker.go:82) and `RemoveAccess` (marker.go:126). -/
 def accessChange (c : Cfg) : Res :=
   match c.status with
@@ -429,6 +450,17 @@ def transferCoinWith (keep : Bool) (c : Cfg) (x : Xfer) : Except Err (Option Gra
 def transferCoin (c : Cfg) (x : Xfer) : Except Err (Option Grant) :=
   transferCoinWith keepAllowListOnUpdate c x
 
+/-- `IbcTransferCoin` (marker.go:728), the part before the IBC module is called: restricted
+marker, `transfer` right (`force_transfer` does not help here, and the status is not looked
+at), and the sender's authz grant unless the administrator sends own coins. Not driven by the
+correspondence streams (the harness app has no IBC channel); tied by the regenerated facts. -/
+def ibcTransferCoinWith (keep : Bool) (c : Cfg) (selfFrom : Bool) (stored : Option Grant) (u : Use) :
+    Except Err (Option Grant) :=
+  if c.mtype ≠ .restricted then .error .mtype
+  else if !c.has .transfer then .error (.noaccess .transfer)
+  else if !selfFrom then authzHandlerWith keep stored u
+  else .ok stored
+
 /-- The transfer went through the source account's authz grant: it was neither out of the
 administrator's own account nor a forced transfer. -/
 def usesGrant (c : Cfg) (x : Xfer) : Bool :=
@@ -449,5 +481,106 @@ def transferSeqWith (keep : Bool) (c : Cfg) (stored : Option Grant) : List Xfer 
 
 def transferSeq (c : Cfg) (stored : Option Grant) (xs : List Xfer) : Option Grant × List Use :=
   transferSeqWith keepAllowListOnUpdate c stored xs
+
+/-! ## A marker through a history of messages (active marker, real message flow)
+
+`MsgAddFinalizeActivateMarker`, then `MsgAddAccess` / `MsgDeleteAccess` / `MsgMint` / `MsgBurn` /
+`MsgWithdraw` by named accounts. The state keeps what the handlers consult: the access list, the
+recorded supply (updated by mint/burn only when the supply is fixed: `IncreaseSupply` /
+`DecreaseSupply`, marker.go:355,385), the coins in escrow and with each account. -/
+
+structure MState where
+  live : Bool := false
+  rights : List (String × List Access) := []
+  record : Int := 0
+  fixed : Bool := true
+  mtype : MType := .coin
+  escrow : Int := 0
+  bals : List (String × Int) := []
+  deriving DecidableEq, Repr
+
+def MState.rightsOf (s : MState) (a : String) : List Access :=
+  match s.rights.find? (·.1 == a) with
+  | some r => r.2
+  | none => []
+
+def MState.balOf (s : MState) (a : String) : Int :=
+  match s.bals.find? (·.1 == a) with
+  | some r => r.2
+  | none => 0
+
+/-- coins of the denom in existence (`bankKeeper.GetSupply`) -/
+def MState.circulating (s : MState) : Int := s.escrow + (s.bals.map (·.2)).foldl (· + ·) 0
+
+def MState.setBal (s : MState) (a : String) (v : Int) : MState :=
+  { s with bals := (s.bals.filter (·.1 != a)) ++ [(a, v)] }
+
+/-- the handler's view for caller `a` (an active marker has no manager) -/
+def MState.cfgWith (viaBank : Bool) (s : MState) (a : String) : Cfg :=
+  { acc := s.rightsOf a, mgr := false, gov := false, status := .active, mtype := s.mtype,
+    forced := false, govCtl := true,
+    ctlSupply := accountControlsAllSupplyWith viaBank (s.balOf a) s.record s.circulating }
+
+def MState.cfg (s : MState) (a : String) : Cfg := s.cfgWith supplyControlViaBank a
+
+/-- `MarkerAccount.GrantAccess` (types/marker.go:395): the new grant's rights first, then the
+rights the address already had that the new grant does not repeat; the entry moves to the end. -/
+def grantAccess (rs : List (String × List Access)) (a : String) (new : List Access) : List (String × List Access) :=
+  let old := match rs.find? (·.1 == a) with
+    | some r => r.2
+    | none => []
+  (rs.filter (·.1 != a)) ++ [(a, new ++ old.filter (fun x => !new.contains x))]
+
+/-- `MarkerAccount.RevokeAccess`. -/
+def revokeAccess (rs : List (String × List Access)) (a : String) : List (String × List Access) :=
+  rs.filter (·.1 != a)
+
+inductive SOp where
+  | create (amt : Int) (fixed : Bool) (ty : MType) (acc : List Access)   -- by "A", who gets `acc`
+  | add (by_ to : String) (rights : List Access)
+  | del (by_ who : String)
+  | mint (by_ : String) (amt : Int)
+  | burn (by_ : String) (amt : Int)
+  | withdraw (by_ to : String) (amt : Int)
+  deriving Repr
+
+/-- one message on the marker: new state, or the rejection (state unchanged) -/
+def scenStepWith (viaBank : Bool) (s : MState) : SOp → Except Err MState
+  | .create amt fixed ty acc =>
+    .ok { live := true, rights := [("A", acc)], record := amt, fixed := fixed, mtype := ty, escrow := amt, bals := [] }
+  | .add by_ to rights =>
+    match addAccess (s.cfgWith viaBank by_) with
+    | .error e => .error e
+    | .ok () => .ok { s with rights := grantAccess s.rights to rights }
+  | .del by_ who =>
+    match removeAccess (s.cfgWith viaBank by_) with
+    | .error e => .error e
+    | .ok () => .ok { s with rights := revokeAccess s.rights who }
+  | .mint by_ amt =>
+    match mintCoin (s.cfgWith viaBank by_) with
+    | .error e => .error e
+    | .ok () =>
+      .ok { s with escrow := s.escrow + amt, record := if s.fixed then s.circulating + amt else s.record }
+  | .burn by_ amt =>
+    match burnCoin (s.cfgWith viaBank by_) with
+    | .error e => .error e
+    | .ok () =>
+      if s.escrow < amt then .error .funds
+      else .ok { s with escrow := s.escrow - amt, record := if s.fixed then s.circulating - amt else s.record }
+  | .withdraw by_ to amt =>
+    match withdrawCoins (s.cfgWith viaBank by_) .plain with
+    | .error e => .error e
+    | .ok () =>
+      if s.escrow < amt then .error .funds
+      else .ok ({ s with escrow := s.escrow - amt }.setBal to (s.balOf to + amt))
+
+def scenStep (s : MState) (op : SOp) : Except Err MState := scenStepWith supplyControlViaBank s op
+
+def scenRunWith (viaBank : Bool) (s : MState) : List SOp → MState
+  | [] => s
+  | op :: rest =>
+    match scenStepWith viaBank s op with
+    | .ok s' => scenRunWith viaBank s' rest
+    | .error _ => scenRunWith viaBank s rest
 
 end PvModel.Mkracc
